@@ -703,7 +703,8 @@ Section Leaves.
   Notation value_regs := (value_regs fzero ffmt gfmt fbig quote fx6).
   Notation add_all := (add_all pick).
   Notation stable := (stable TL.renv ext).
-  Notation regs_ok := (regs_ok TL.renv (map fst)).
+  Definition reached (e e1 : TL.renv) (ps : list bytes) : Prop := e1 = add_all ps e.
+  Notation regs_ok := (regs_ok TL.renv reached).
 
   Definition vregs (t : VL.gotype) (v : VL.goval F) : list bytes := filter (is_foreign self) (value_regs false t v).
 
@@ -737,8 +738,7 @@ Section Leaves.
 
   Lemma value_frag_regs : forall t v, regs_ok (value_frag t v) (vregs t v).
   Proof.
-    intros t v e txt e1 H. destruct (value_frag_spec t v e txt e1 H) as [E _]. subst e1.
-    intros p. apply (add_all_paths pick pick_total).
+    intros t v e txt e1 H. destruct (value_frag_spec t v e txt e1 H) as [E _]. exact E.
   Qed.
 
   Lemma id_frag_spec : forall x e txt e1, id_frag x e = Ok (txt, e1) ->
@@ -758,9 +758,14 @@ Section Leaves.
 
   Lemma id_frag_regs : forall x, regs_ok (id_frag x) (idarg_regs self parse_c15 x).
   Proof.
-    intros x e txt e1 H. destruct (id_frag_spec x e txt e1 H) as [E _]. subst e1.
-    intros p. apply (add_all_paths pick pick_total).
+    intros x e txt e1 H. destruct (id_frag_spec x e txt e1 H) as [E _]. exact E.
   Qed.
+
+  Lemma reached_refl : forall e, reached e e [].
+  Proof. intros e. reflexivity. Qed.
+
+  Lemma reached_trans : forall e e1 e2 F1 F2, reached e e1 F1 -> reached e1 e2 F2 -> reached e e2 (F1 ++ F2).
+  Proof. intros e e1 e2 F1 F2 H1 H2. unfold reached in *. subst. symmetry. apply add_all_app. Qed.
 
   Lemma ret_stable : forall b, stable (ret_st TL.renv b).
   Proof. intros b. apply stable_ret. apply PTL.ext_refl. Qed.
@@ -785,12 +790,12 @@ Section Leaves.
   Lemma leaf_frag_regs : forall l, regs_ok (leaf_frag l) (leaf_regs fzero ffmt gfmt fbig quote self fx6 l).
   Proof.
     intros [[[t v]|]|[x|]|p n]; cbn [RenderStack.leaf_frag leaf_regs].
-    - apply value_frag_regs. - apply regs_ok_ret. - apply id_frag_regs. - apply regs_ok_panic. - apply id_frag_regs.
+    - apply value_frag_regs. - apply regs_ok_ret, reached_refl. - apply id_frag_regs. - apply regs_ok_panic. - apply id_frag_regs.
   Qed.
 
   Lemma raw_v_regs_ok : forall a, regs_ok (raw_v a) (raw_v_regs fzero ffmt gfmt fbig quote self fx6 a).
   Proof.
-    intros [t v| |x]; cbn [RenderStack.raw_v raw_v_regs]; [apply value_frag_regs|apply regs_ok_ret|apply regs_ok_panic].
+    intros [t v| |x]; cbn [RenderStack.raw_v raw_v_regs]; [apply value_frag_regs|apply regs_ok_ret, reached_refl|apply regs_ok_panic].
   Qed.
 
   Lemma raw_t_regs_ok : forall a, regs_ok (raw_t a) (@raw_t_regs F self a).
